@@ -32,6 +32,7 @@ package contracts
 import (
 	"context"
 	"crypto/ecdsa"
+	"errors"
 	"flag"
 	"fmt"
 	"math/big"
@@ -39,6 +40,7 @@ import (
 	"os"
 	"path/filepath"
 	"sort"
+	"strings"
 	"time"
 
 	"github.com/0xPolygon/cdk-contracts-tooling/contracts/pp/l2-sovereign-chain/polygonzkevmbridgev2"
@@ -66,7 +68,7 @@ const (
 	extraAtom0    = 1000 // atoms of the pure getLeafValue cases: extraAtom0+k
 )
 
-// Run: drv_contracts -out trace.ndjson [-deposits N] [-cases K] [-l1steps N] [-envs E]
+// Run: drv_contracts -out trace.ndjson [-deposits N] [-cases K] [-l1steps N] [-envs E] [-parts bridge,l1]
 func Run(args []string) error {
 	fs := flag.NewFlagSet("contracts", flag.ContinueOnError)
 	out := fs.String("out", "", "trace ndjson")
@@ -74,6 +76,7 @@ func Run(args []string) error {
 	nCases := fs.Int("cases", 12, "pure getLeafValue cases with unsendable field combinations")
 	nL1 := fs.Int("l1steps", 24, "exit-root update steps in the l1 environment")
 	nEnvs := fs.Int("envs", 2, "bridge environments (the first has network id 0, the others a seeded non-zero id)")
+	parts := fs.String("parts", "bridge,l1", "which environments to run")
 	if err := fs.Parse(args); err != nil {
 		return err
 	}
@@ -89,23 +92,29 @@ func Run(args []string) error {
 	defer os.RemoveAll(dir)
 	rng := rand.New(rand.NewSource(tr.Seed()))
 	t := 0
-	for e := 0; e < *nEnvs; e++ {
-		n := *nDep / *nEnvs
+	for e := 0; e < *nEnvs && strings.Contains(*parts, "bridge"); e++ {
+		// the first environment gets the larger share (thorough: 36 of 60 deposits, past the 2^5 carry boundary)
+		n, c := *nDep / *nEnvs, *nCases / *nEnvs
+		if *nEnvs == 2 {
+			n = *nDep * 2 / 5
+		}
 		if e == 0 {
-			n += *nDep % *nEnvs
+			n, c = *nDep-n*(*nEnvs-1), *nCases-c*(*nEnvs-1)
 		}
 		netID := uint32(0)
 		if e > 0 {
 			netID = []uint32{1, 2, 7, 0x7fffffff, 0xfffffffe}[rng.Intn(5)]
 		}
 		t++
-		if err := runBridgeEnv(w, rng, filepath.Join(dir, fmt.Sprintf("b%d", e)), t, netID, n, *nCases / *nEnvs); err != nil {
+		if err := runBridgeEnv(w, rng, filepath.Join(dir, fmt.Sprintf("b%d", e)), t, netID, n, c); err != nil {
 			return fmt.Errorf("bridge environment %d (network %d): %w", e, netID, err)
 		}
 	}
-	t++
-	if err := runL1Env(w, rng, filepath.Join(dir, "l1"), t, *nL1); err != nil {
-		return fmt.Errorf("l1 environment: %w", err)
+	if strings.Contains(*parts, "l1") {
+		t++
+		if err := runL1Env(w, rng, filepath.Join(dir, "l1"), t, *nL1); err != nil {
+			return fmt.Errorf("l1 environment: %w", err)
+		}
 	}
 	return nil
 }
@@ -294,23 +303,14 @@ func classify(err error) string {
 	switch {
 	case err == nil:
 		return "ok"
-	case err == aggsync.ErrInconsistentState:
+	case errors.Is(err, aggsync.ErrInconsistentState):
 		return "incons"
 	default:
-		if s := err.Error(); len(s) >= 9 && (contains(s, "not found") || contains(s, "no rows")) {
+		if s := err.Error(); strings.Contains(s, "not found") || strings.Contains(s, "no rows") {
 			return "notfound"
 		}
 		return "err"
 	}
-}
-
-func contains(s, sub string) bool {
-	for i := 0; i+len(sub) <= len(s); i++ {
-		if s[i:i+len(sub)] == sub {
-			return true
-		}
-	}
-	return false
 }
 
 func newDownloader(id string, cl aggkittypes.BaseEthereumClienter, app aggsync.LogAppenderMap, addrs []common.Address,
@@ -325,7 +325,8 @@ func newDownloader(id string, cl aggkittypes.BaseEthereumClienter, app aggsync.L
 // the real l1infotreesync processor fed by the real downloader.
 type l1side struct {
 	o     *world
-	dict  *names.Dict // L1 info tree nodes, leaves, GERs
+	dict  *names.Dict                // L1 info tree nodes and leaves
+	gers  map[common.Hash]names.Name // global exit roots (own namespace: keccak(0,0) is both a GER and a zero subtree)
 	ref   *names.AppendTree
 	udict *names.Dict // rollup exit tree
 	uref  *names.UpdTree
@@ -343,7 +344,7 @@ type l1side struct {
 func newL1Side(o *world) (*l1side, error) {
 	d, ud := names.NewDict(), names.NewDict()
 	s := &l1side{o: o, dict: d, ref: names.NewAppendTree(d), udict: ud, uref: names.NewUpdTree(ud), ust: map[int]int{},
-		exit: map[int]common.Hash{0: {}}, seenG: map[common.Hash]bool{}}
+		exit: map[int]common.Hash{0: {}}, seenG: map[common.Hash]bool{}, gers: map[common.Hash]names.Name{}}
 	n, err := l1infotreesync.NewVerifL1InfoTreeSync(filepath.Join(o.dir, "l1info.sqlite"))
 	if err != nil {
 		return nil, err
@@ -383,6 +384,13 @@ func (s *l1side) observe(r *types.Receipt) gerObs {
 	return g
 }
 
+func (s *l1side) gerName(h common.Hash) names.Name {
+	if n, ok := s.gers[h]; ok {
+		return n
+	}
+	return names.Unknown
+}
+
 func (s *l1side) exitRoot(x int) common.Hash {
 	if h, ok := s.exit[x]; ok {
 		return h
@@ -412,7 +420,7 @@ func (s *l1side) refPush(h *types.Header) {
 	}
 	s.seenG[g] = true
 	s.nI++
-	s.dict.Put(g, names.Name{T: "ger", H: 0, Ls: []any{s.nI}})
+	s.gers[g] = names.Name{T: "ger", H: 0, Ls: []any{s.nI}}
 	s.ref.Append(s.nI, names.L1InfoLeaf(g, h.ParentHash, h.Time))
 }
 
@@ -462,7 +470,7 @@ func (s *l1side) emitInfo(g gerObs, h *types.Header, last bool) error {
 			return fmt.Errorf("GER.getLeafValue: %w", err)
 		}
 		m["contract_getroot_c"], m["contract_getroot"] = "ok", s.dict.Of(gr)
-		m["ger_c"], m["ger"] = "ok", s.dict.Of(lg)
+		m["ger_c"], m["ger"] = "ok", s.gerName(lg)
 		m["contract_leaf_c"], m["contract_leaf"] = "ok", s.dict.Of(cl)
 		raw["contract_getroot"], raw["ger"], raw["contract_leaf"] = hx(gr), hx(lg), hx(cl)
 	}
@@ -470,7 +478,7 @@ func (s *l1side) emitInfo(g gerObs, h *types.Header, last bool) error {
 	m["node_c"] = classify(err)
 	m["node_leaf"], m["node_ger"] = names.Unknown, names.Unknown
 	if err == nil {
-		m["node_leaf"], m["node_ger"] = s.dict.Of(info.Hash), s.dict.Of(info.GlobalExitRoot)
+		m["node_leaf"], m["node_ger"] = s.dict.Of(info.Hash), s.gerName(info.GlobalExitRoot)
 		raw["node_leaf"], raw["node_ger"] = hx(info.Hash), hx(info.GlobalExitRoot)
 		// does the contract know the global exit root the node stored for this leaf?
 		inMap, err := s.o.ger.GlobalExitRootMap(nil, info.GlobalExitRoot)
